@@ -50,6 +50,15 @@ func Pool() []Block {
 		{Name: "T_hh", Kind: "type", Defines: []string{"@hh"}, Needs: []string{"@h"}, Nodes: one(func() *Node {
 			return N("TYPE", "@hh").WithBody("{ // {allOf: \"@h\"}\n  \"top\": 3\n}")
 		})},
+		{Name: "T_mid", Kind: "type", Defines: []string{"@mid"}, Needs: []string{"@a"}, Nodes: one(func() *Node {
+			return N("TYPE", "@mid").WithBody("{ // {allOf: \"@a\"}\n}")
+		})},
+		{Name: "T_leaf", Kind: "type", Defines: []string{"@leaf"}, Needs: []string{"@mid"}, Nodes: one(func() *Node {
+			return N("TYPE", "@leaf").WithBody("{ // {allOf: \"@mid\"}\n  \"lf\": 1\n}")
+		})},
+		{Name: "T_nest", Kind: "type", Defines: []string{"@nest"}, Needs: []string{"@a"}, Nodes: one(func() *Node {
+			return N("TYPE", "@nest").WithBody("{\n  \"in\": { // {allOf: \"@a\"}\n    \"x\": 1\n  }\n}")
+		})},
 		{Name: "T_l", Kind: "type", Defines: []string{"@l"}, Needs: []string{"@a"}, Nodes: one(func() *Node {
 			return N("TYPE", "@l").WithBody("[@a]")
 		})},
